@@ -87,15 +87,16 @@ def o_controlled(spec):
     cl = set(cgen.circuit_classes(spec))
     for k in range(n + 1):  # every control position, exhaustively
         cc = must(lambda: c.controlled(k), f"controlled({k})")
-        require(len(cc.operations) == len(c.operations), "controlled circuit has a different number of operations")
+        # the control and the image of every qubit an original operation touches lie inside the result's register
+        # (idle qubits of the original are not claimed: the library infers the width from the operations)
+        touched = [q + (1 if q >= k else 0) for op in c.operations for q in op.qubit_indices]
+        require(cc.n_qubits >= max(touched + [k]) + 1, lambda: f"controlled({k}) has {cc.n_qubits} qubits but the original operations touch qubits up to {max(touched + [k])} after the shift")
         W = max(cc.n_qubits, n + 1)
         Uc = own_matrix(Circuit(cc.operations, W), W)
         others = [q for q in range(W) if q != k]
         Upad = own_matrix(Circuit(c.operations, W - 1), W - 1)
         R = ref.embed(ref.controlled(Upad, 1), [k] + others, W)
         require(ref.close(Uc, R), lambda: f"controlled({k}): not identity for control 0 / original on the shifted qubits for control 1, max|d|={ref.maxdiff(Uc, R):.3g}")
-        for op in cc.operations:
-            require(op.qubit_indices[0] == k, lambda: f"controlled({k}): an operation does not list the control first: {op}")
     multi = any(len(o["q"]) >= 2 for o in spec["ops"])
     if n >= 2 and multi:
         cl.add("inner_control_with_multiqubit_gate")
